@@ -317,3 +317,31 @@ share("C01", "mono", "C09")
 # detected maneuvers are stored once: the update job's result REPLACES the agent's pending list (C08 frame obligation), re-checked in this property's own run
 from contracts import C08 as _C08  # noqa: E402,F401
 share("C08", "frames", "C09")
+
+
+@obligation("C09", "atomic_bounded", ensures=["B-C09-atomic.all-or-nothing", "B-C09-atomic.retry-has-no-duplicates"],
+            fns=[DI + "DataInterface.bulkSave", DI + "DataInterface._getSessionScope", DI + "DataInterface.__init__"], mode="Z", native_only=True, samples=12,
+            bounded="BOUNDED stand-in, not a proof: 12 (quick) / 120 (thorough) step-sized row lists per run against a real in-memory SQLite database opened by the real DataInterface "
+                    "constructor; what SQLAlchemy / SQLite do inside a transaction is outside any contract (the session-scope logic itself is proved: O-C09-scope.*)",
+            note="a step's rows are committed all together or not at all, on the engine the real constructor configures: when one row of the list handed to bulkSave violates a constraint the "
+                 "call raises and NONE of the list's rows is in the database afterwards; saving the corrected list then leaves each row exactly once")
+def atomic_bounded(vc):
+    from sqlalchemy.orm import Query
+    from resonaate.data.resonaate_database import ResonaateDatabase
+    from resonaate.data.agent import AgentModel
+    from resonaate.data.epoch import Epoch
+    from resonaate.data.ephemeris import TruthEphemeris
+    n = vc.int("truth_rows", 1, 6)
+    db = ResonaateDatabase(db_path="sqlite://")
+    db.insertData(Epoch(julian_date=2459000.5, timestampISO="2020-05-31T00:00:00.000000"), *[AgentModel(unique_id=100 + k, name=f"a{k}") for k in range(n)])
+    rows = lambda: [TruthEphemeris.fromECIVector(agent_id=100 + k, julian_date=2459000.5, eci=[7000.0 + k, 0.0, 0.0, 0.0, 7.5, 0.0]) for k in range(n)]
+    bad = AgentModel(unique_id=100, name="already-there")   # violates the primary key of `agents`: the step's list cannot be stored
+    raised = False
+    try:
+        db.bulkSave(rows() + [bad])
+    except Exception:  # noqa: BLE001
+        raised = True
+    left = len(db.getData(Query(TruthEphemeris)))
+    vc.ensure("B-C09-atomic.all-or-nothing", raised and left == 0)
+    db.bulkSave(rows())
+    vc.ensure("B-C09-atomic.retry-has-no-duplicates", len(db.getData(Query(TruthEphemeris))) == n)
